@@ -25,10 +25,16 @@ type Sent struct {
 	Batch bool // left through sendmmsg
 }
 
+var (
+	errConnReset = syscall.ECONNRESET
+	errPipe      = syscall.EPIPE
+)
+
 type Kernel struct {
 	mu    sync.Mutex
 	start time.Time
 	Socks []*Sock
+	TCP   *TCPListener
 	Out   []Sent
 	// Config
 	RcvBuf       int  // datagrams a socket queues before the kernel drops (0 = 256)
